@@ -503,7 +503,8 @@ package iscp
 // a nil result (= ack timeout, after which the chunk is forgotten) is produced only after
 // the timeout fired AND the surrounding context was then seen not to be cancelled
 //@ func (*Upstream).withAckTimeoutCh$1
-//@   props C02
+//@   props C02 C01
+//@   assert call WithTimeout: u.Config.AckTimeout != 0 && arg1 == u.Config.AckTimeout   // an ack timeout is armed only when one is configured (0 = wait for the ack), with the configured value
 //@   ghostvar live bool = false
 //@   ghostvar relayed bool = false
 //@   after call Context).Err: live = (res0 == nil)
